@@ -32,7 +32,10 @@ def gen_cases(tier, seed):
     grids = [{'nx': 3, 'ny': 3, 'mi_x': [0.5], 'mi_y': [], 'tuple_mi': False, 'log': False},
              {'nx': 3, 'ny': 3, 'mi_x': [0.5], 'mi_y': [], 'tuple_mi': True, 'log': False},
              {'nx': 4, 'ny': 3, 'mi_x': [], 'mi_y': [1.0], 'tuple_mi': False, 'log': True},
-             {'nx': 4, 'ny': 3, 'mi_x': [0.25, 0.5], 'mi_y': [], 'tuple_mi': True, 'log': False}]
+             {'nx': 4, 'ny': 3, 'mi_x': [0.25, 0.5], 'mi_y': [], 'tuple_mi': True, 'log': False},
+             # limits that do not survive a short decimal representation (the restart re-reads the grid from the study log)
+             {'nx': 3, 'ny': 3, 'mi_x': [0.5], 'mi_y': [], 'tuple_mi': False, 'log': False, 'xlim': [0.12345678912345678, 2.718281828459045], 'ylim': [-3.141592653589793, 1.0 / 3.0]},
+             {'nx': 3, 'ny': 3, 'mi_x': [], 'mi_y': [], 'tuple_mi': False, 'log': True, 'xlim': [-2.4559319556497243, 0.6931471805599453]}]
     k = 0
 
     def add(grid, procs, kill=None, fail=None, second=None):
@@ -56,6 +59,9 @@ def gen_cases(tier, seed):
         for fail in ([0], [3, 4, 5], [1, 6, 11]):
             add(g, 4, fail=fail)
         add(grids[1], 8, fail=[2, 7])
+        add(grids[4], 4, fail=[1, 5])
+        add(grids[4], 4, kill='4:2')
+        add(grids[5], 4, fail=[0, 7])
         # three-run histories: cases fail (or the study is killed) in run 1, some complete in an interrupted run 2, run 3 finishes the study
         add(g, 4, fail=[2, 7], second={'fail': [7]})
         add(g, 4, fail=[0, 5, 11], second={'kill': '5:2'})
@@ -87,14 +93,16 @@ def gen_cases(tier, seed):
 
 
 def grid_reference(g):
+    xlim = g.get('xlim') or ([-1, 1] if g['log'] else [0, 2])
+    ylim = g.get('ylim') or [-3, 3]
     if g['log']:
-        x = np.logspace(-1, 1, g['nx'])
+        x = np.logspace(xlim[0], xlim[1], g['nx'])
         mi = 10 ** np.asarray(g['mi_x'], dtype=float) if g['mi_x'] else np.array([])
     else:
-        x = np.linspace(0, 2, g['nx'])
+        x = np.linspace(xlim[0], xlim[1], g['nx'])
         mi = np.asarray(g['mi_x'], dtype=float)
     x = np.sort(np.unique(np.concatenate((x, mi))))
-    y = np.sort(np.unique(np.concatenate((np.linspace(-3, 3, g['ny']), np.asarray(g['mi_y'], dtype=float)))))
+    y = np.sort(np.unique(np.concatenate((np.linspace(ylim[0], ylim[1], g['ny']), np.asarray(g['mi_y'], dtype=float)))))
     ref = {}
     n = 0
     for i, xv in enumerate(x):
